@@ -1220,59 +1220,117 @@ fn run_l4(root: &Path, tier: &str, seed: u64) -> (u32, serde_json::Value) {
         }
         Err(e) => println!("note: could not run miri: {}", e),
     }
-    // (a) the L1 simulator itself under Miri, a few histories per world, worlds in parallel
-    let per_world: u64 = if tier == "thorough" { 8 } else { 0 };
+    // (a) the simulator itself under Miri: L1 histories per world and L2 runs per scenario, one
+    // process per (target, aliasing model), all in parallel. Stacked Borrows on one slice of
+    // the runs, Tree Borrows on the next.
+    struct Job {
+        layer: &'static str,
+        name: String,
+        tb: bool,
+        first: u64,
+        runs: u64,
+    }
+    fn job_args(j: &Job, first: u64, runs: u64, seed: u64) -> Vec<String> {
+        let mut v: Vec<String> = if j.layer == "L1" {
+            vec!["l1".into(), "--world".into(), j.name.clone(), "--threads".into(), "1".into(), "--gate".into(), "C01".into()]
+        } else {
+            vec!["l2".into(), "--scen".into(), j.name.clone()]
+        };
+        v.extend(["--runs".to_string(), runs.to_string(), "--first-run".into(), first.to_string(), "--seed".into(), seed.to_string()]);
+        v
+    }
+    fn job_ok(j: &Job, o: &std::process::Output) -> (bool, String) {
+        let out = String::from_utf8_lossy(&o.stdout).to_string() + &String::from_utf8_lossy(&o.stderr);
+        let clean = if j.layer == "L1" { out.contains("found: 0") } else { out.contains(" fails=0 ") };
+        (o.status.success() && clean && !out.contains("Undefined Behavior"), out)
+    }
+    fn model_flags(tb: bool) -> &'static str {
+        if tb {
+            "-Zmiri-tree-borrows"
+        } else {
+            ""
+        }
+    }
+    let (l1_runs, l2_runs): (u64, u64) = if tier == "thorough" { (8, 24) } else { (0, 3) };
+    let mut jobs: Vec<Job> = vec![];
+    if l1_runs > 0 {
+        for w in l1::worlds() {
+            jobs.push(Job { layer: "L1", name: w.name.to_string(), tb: false, first: 0, runs: l1_runs });
+            jobs.push(Job { layer: "L1", name: w.name.to_string(), tb: true, first: l1_runs, runs: l1_runs });
+        }
+    }
+    for sdef in l2::scenarios() {
+        if tier == "thorough" {
+            jobs.push(Job { layer: "L2", name: sdef.name.to_string(), tb: false, first: 0, runs: l2_runs });
+            jobs.push(Job { layer: "L2", name: sdef.name.to_string(), tb: true, first: l2_runs, runs: l2_runs });
+        } else {
+            // quick: a few task-simulator runs per scenario, alternating the aliasing model by seed
+            jobs.push(Job { layer: "L2", name: sdef.name.to_string(), tb: seed % 2 == 1, first: 0, runs: l2_runs });
+        }
+    }
     let mut histories = 0u64;
-    if per_world > 0 && violations == 0 {
-        let worlds: Vec<&'static str> = l1::worlds().iter().map(|w| w.name).collect();
-        let results: Vec<(String, bool, String)> = std::thread::scope(|sc| {
-            let hs: Vec<_> = worlds
-                .iter()
-                .map(|w| {
-                    let w = w.to_string();
-                    sc.spawn(move || {
-                        let runs = per_world.to_string();
-                        let sd = seed.to_string();
-                        let o = miri_cmd(root, "", &["l1", "--world", &w, "--runs", &runs, "--threads", "1", "--gate", "C01", "--seed", &sd]).output();
-                        match o {
-                            Ok(o) => {
-                                let out = String::from_utf8_lossy(&o.stdout).to_string() + &String::from_utf8_lossy(&o.stderr);
-                                let ok = o.status.success() && out.contains("found: 0") && !out.contains("Undefined Behavior");
-                                (w, ok, out)
-                            }
-                            Err(e) => (w, true, format!("could not run miri: {}", e)),
+    let mut l2_under_miri = 0u64;
+    let mut tb_runs = 0u64;
+    if violations == 0 {
+        let next = std::sync::atomic::AtomicUsize::new(0);
+        let results: std::sync::Mutex<Vec<(usize, bool, String)>> = std::sync::Mutex::new(vec![]);
+        std::thread::scope(|sc| {
+            for _ in 0..16.min(jobs.len()) {
+                sc.spawn(|| loop {
+                    let i = next.fetch_add(1, std::sync::atomic::Ordering::SeqCst);
+                    if i >= jobs.len() {
+                        break;
+                    }
+                    let j = &jobs[i];
+                    let args = job_args(j, j.first, j.runs, seed);
+                    let argv: Vec<&str> = args.iter().map(|s| s.as_str()).collect();
+                    let r = match miri_cmd(root, model_flags(j.tb), &argv).output() {
+                        Ok(o) => {
+                            let (ok, out) = job_ok(j, &o);
+                            (i, ok, out)
                         }
-                    })
-                })
-                .collect();
-            hs.into_iter().map(|h| h.join().unwrap()).collect()
+                        Err(e) => (i, true, format!("could not run miri: {}", e)),
+                    };
+                    results.lock().unwrap().push(r);
+                });
+            }
         });
-        for (w, ok, out) in results {
+        let mut results = results.into_inner().unwrap();
+        results.sort_by_key(|r| r.0);
+        for (i, ok, out) in results {
+            let j = &jobs[i];
             if ok {
-                histories += per_world;
+                if j.layer == "L1" {
+                    histories += j.runs;
+                } else {
+                    l2_under_miri += j.runs;
+                }
+                if j.tb {
+                    tb_runs += j.runs;
+                }
                 continue;
             }
-            // find the first history Miri objects to, dump its trace natively
+            // find the first run Miri objects to, dump its trace natively
             let mut culprit = None;
-            for r in 0..per_world {
-                let (rs, sd) = (r.to_string(), seed.to_string());
-                let o = miri_cmd(root, "", &["l1", "--world", &w, "--runs", "1", "--first-run", &rs, "--threads", "1", "--gate", "C01", "--seed", &sd]).output();
-                if let Ok(o) = o {
-                    let t = String::from_utf8_lossy(&o.stdout).to_string() + &String::from_utf8_lossy(&o.stderr);
-                    if !o.status.success() || t.contains("Undefined Behavior") || !t.contains("found: 0") {
+            for r in j.first..j.first + j.runs {
+                let args = job_args(j, r, 1, seed);
+                let argv: Vec<&str> = args.iter().map(|s| s.as_str()).collect();
+                if let Ok(o) = miri_cmd(root, model_flags(j.tb), &argv).output() {
+                    if !job_ok(j, &o).0 {
                         culprit = Some(r);
                         break;
                     }
                 }
             }
             let first = out.lines().find(|l| l.contains("Undefined Behavior") || l.starts_with("error")).unwrap_or("").to_string();
-            let run = culprit.unwrap_or(0);
-            let tr = Command::new(self_exe()).args(["trace", "--world", &w, "--seed", &seed.to_string(), "--run", &run.to_string()]).output();
+            let run = culprit.unwrap_or(j.first);
+            let which = if j.layer == "L1" { "--world" } else { "--scen" };
+            let tr = Command::new(self_exe()).args(["trace", which, &j.name, "--seed", &seed.to_string(), "--run", &run.to_string()]).output();
             let mut rep: Replay = tr.ok().and_then(|o| serde_json::from_slice(&o.stdout).ok()).unwrap_or(Replay {
                 property: "C01".into(),
                 oracle: "miri".into(),
-                layer: "L1".into(),
-                world: w.clone(),
+                layer: j.layer.into(),
+                world: j.name.clone(),
                 seed,
                 run_index: run,
                 config: Cfg::new(),
@@ -1284,7 +1342,10 @@ fn run_l4(root: &Path, tier: &str, seed: u64) -> (u32, serde_json::Value) {
                 runner: "miri".into(),
                 tape: vec![],
             });
-            rep.message = format!("Miri objects to history {} of world {}: {}", run, w, first);
+            if j.tb {
+                rep.config.insert("miri_tree_borrows".into(), 1);
+            }
+            rep.message = format!("Miri ({}) objects to run {} of {} {}: {}", if j.tb { "Tree Borrows" } else { "Stacked Borrows" }, run, j.layer, j.name, first);
             let path = write_replay(root, &rep);
             println!("violation: {}", rep.message);
             println!("VIOLATION property=C01 replay={}", path.display());
@@ -1292,7 +1353,7 @@ fn run_l4(root: &Path, tier: &str, seed: u64) -> (u32, serde_json::Value) {
             break;
         }
     }
-    (violations, json!({"thread_scenario_seeds_ok": thread_ok, "l1_histories_under_miri": histories, "aliasing_model": "Stacked Borrows (default)"}))
+    (violations, json!({"thread_scenario_seeds_ok": thread_ok, "l1_histories_under_miri": histories, "l2_runs_under_miri": l2_under_miri, "of_which_tree_borrows": tb_runs, "aliasing_model": "Stacked Borrows (default) and Tree Borrows on disjoint slices of the runs"}))
 }
 
 /// `simctl replay` of a file recorded by the Miri tier: re-executed under Miri.
@@ -1302,7 +1363,9 @@ pub fn replay_under_miri(root: &Path, path: &str, rep: &Replay) -> i32 {
         let flags = format!("-Zmiri-many-seeds=0..{} -Zmiri-preemption-rate=0.1", rep.seed.max(1));
         miri_cmd(root, &flags, &["miri-threads"]).output()
     } else {
-        miri_cmd(root, "", &["replay-inproc", &abs.to_string_lossy()]).output()
+        // the replay file has to be read: isolation off for this one command
+        let flags = if rep.config.get("miri_tree_borrows").copied().unwrap_or(0) != 0 { "-Zmiri-disable-isolation -Zmiri-tree-borrows" } else { "-Zmiri-disable-isolation" };
+        miri_cmd(root, flags, &["replay-inproc", &abs.to_string_lossy()]).output()
     };
     match o {
         Err(e) => {
@@ -1332,12 +1395,12 @@ pub fn replay_under_miri(root: &Path, path: &str, rep: &Replay) -> i32 {
 pub fn cmd_selftest_probes(seed: u64) -> i32 {
     let expect: &[(&str, &[&str])] = &[
         ("semaphore", &["barge", "cancel_notified", "cancel_waiting_head", "cancel_waiting_middle", "cancel_waiting_tail", "waker_swap", "waker_swap_while_notified", "woken_requeued", "handle_drop_with_pending_future", "disarm", "spurious_poll", "requeue_after_stolen_permits", "unfair_waiting_fastpath_acquire", "poll_after_completion_probe"]),
-        ("mutex", &["barge", "cancel_notified", "cancel_waiting_head", "cancel_waiting_middle", "waker_swap", "waker_swap_while_notified", "woken_requeued", "requeue_after_barging", "unfair_waiting_fastpath_lock", "stale_poll_order"]),
+        ("mutex", &["barge", "cancel_notified", "cancel_waiting_head", "cancel_waiting_middle", "waker_swap", "waker_swap_while_notified", "woken_requeued", "requeue_after_barging", "unfair_waiting_fastpath_lock", "stale_poll_order", "reentrant_try_lock_in_waker_callback", "reentrant_try_lock_succeeded"]),
         ("event", &["set_with_pending_waiters", "reset_before_woken_waiter_polled", "completed_after_set_then_reset", "cancel_notified", "waker_swap"]),
         ("timer", &["clock_jump_past_many", "clock_jump_saturating", "delay_saturates", "delay_longer_than_u64_ms", "driver_stall", "duplicate_deadline", "cancel_registered_timer", "expired_2_or_more_in_one_check", "heap_with_3_or_more_nodes", "cancel_waiting_middle"]),
         ("mpmc", &["refill_from_parked_sender", "rendezvous_take_from_parked_sender", "stream_item", "stream_terminated", "terminated_stream_polled_again", "last_receiver_discards_buffer", "notified_receiver_found_nothing", "cancel_parked_sender", "cancel_parked_sender_middle", "close_with_pending_send", "close_with_pending_recv", "last_sender_dropped", "last_receiver_dropped", "cancel_notified", "barge"]),
         ("oneshot", &["value_received", "late_receiver_gets_none", "receive_started_after_send", "one_of_several_receivers_dropped", "last_receiver_dropped", "close_with_pending_recv", "send_with_pending_receivers"]),
-        ("state_broadcast", &["latest_state_after_close", "request_older_than_latest", "send_with_pending_receivers", "last_sender_dropped", "last_receiver_dropped", "close_with_pending_recv"]),
+        ("state_broadcast", &["latest_state_after_close", "request_older_than_latest", "request_ahead_of_channel", "send_with_pending_receivers", "last_sender_dropped", "last_receiver_dropped", "close_with_pending_recv"]),
     ];
     let mut missing = 0;
     for (world, names) in expect {
